@@ -49,6 +49,9 @@ const bool B5 = 5
 const bool B6 = -1
 const bool B7 = 0.5
 const bool B8 = inc.YES
+const bool B10 = 0.0
+const bool B11 = -1.5
+const bool B12 = 2.5e-300
 const bool B9 = B8
 const byte Y1 = true
 const byte Y2 = -128
@@ -231,7 +234,7 @@ func single(key, body string, reject bool) corpusProg {
 		Files: map[string]string{"main.thrift": "namespace go corpus." + key + "\n" + body}}
 }
 
-func corpus() []corpusProg {
+func corpus(tier string) []corpusProg {
 	ps := []corpusProg{
 		{Key: "ways", Main: "ways.thrift", Files: map[string]string{"ways.thrift": waysThrift, "inc.thrift": incThrift}},
 		{Key: "foreign", Main: "foreign.thrift", Files: map[string]string{"foreign.thrift": foreignThrift, "lib.thrift": libThrift, "lib2.thrift": lib2Thrift, "lib3.thrift": lib3Thrift}},
@@ -275,6 +278,14 @@ func corpus() []corpusProg {
 	}
 	for _, r := range rejects {
 		ps = append(ps, single(r.key, pre+r.body+"\n", true))
+	}
+	if tier == "thorough" {
+		// accepted by thriftgo, but the emitted Go does not compile (the backend takes the address of an
+		// operand that has none): the model answers with an error value, the build drops the unit
+		ps = append(ps,
+			single("h01", "enum E { A = 1 }\nstruct S { 1: optional E e }\nconst S s = {\"e\": E.A}\n", true),
+			single("h02", "struct I { 1: i32 a }\nstruct S { 1: I inner }\nconst I K = {\"a\": 1}\nconst S s = {\"inner\": K}\n", true),
+			single("h03", "enum E { A = 1 }\nunion U { 1: E e, 2: i32 i }\nconst U u = {\"e\": 1}\n", true))
 	}
 	return ps
 }
